@@ -436,6 +436,54 @@ def rowsSpec (api : String) (v : Nat) (r : LResp) : Option String :=
       | _ => none
   | _ => none
 
+/-! ## skip-metadata end to end: PREPARED response, then a page; conn.go executeQuery's iterator -/
+
+open Rows in
+def skipModel (fv : Nat) (wire1 wire2 : FrameRead.Bytes) : String :=
+  match recvModel fv wire1, recvModel fv wire2 with
+  | some (h1, b1), some (h2, b2) =>
+    match parseResp fv h1 b1, parseResp fv h2 b2 with
+    | .ok (r1, _), .ok (r2, rest) =>
+      match r1.frame, r2.frame with
+      | .resultPrepared _ _ resp, .resultRows x n =>
+        match iterMeta true (some resp) x with
+        | none => "err"
+        | some md =>
+          let it := iterOf md n rest
+          let dests := List.replicate (widthsOf md.columns) true
+          match scanLoop dests (n.toNat + 1) it [] with
+          | none => "crash:go"
+          | some (rows, it') =>
+            "ok M:" ++ dMeta md ++ " W:" ++ dWarnings r2.warnings ++ " rows:[" ++ "|".intercalate rows ++ "] " ++ iterEnd it'
+      | _, _ => "err"
+    | _, _ => "err"
+  | _, _ => "err"
+
+/-- the specification's expectation for a NO_METADATA page read with the prepared statement's
+    result metadata `mp` -/
+def skipSpec (prep page : LResp) : Option String :=
+  match prep.body, page.body with
+  | .result (.prepared _ _ _ (some mp)), .result (.rows pm rs) =>
+    match pm.cols with
+    | .omitted _ _ =>
+      match rs.mapM (expectRow (colTypes mp.cols)) with
+      | none => none
+      | some rows =>
+        let md := { viewMeta mp with pagingState := some (pm.paging.getD []) }
+        some ("ok M:" ++ dMeta md ++ " W:" ++ dWarnings page.warnings ++ " rows:[" ++ "|".intercalate (rows.map dExpectScan) ++
+          "] " ++ s!"end:0,{rs.length},-")
+    | _ => none
+  | _, _ => none
+
+def tSkip : TP (Nat × LResp × FrameRead.Bytes × Nat × LResp × FrameRead.Bytes) := do
+  let (v1, r1) ← tResp
+  let w1 ← tHex
+  let sep ← tok
+  if sep != "ROWSRESP" then failure
+  let (v2, r2) ← tResp
+  let w2 ← tHex
+  pure (v1, r1, w1, v2, r2, w2)
+
 /-! ## ops -/
 
 def parseLogical (ws : List String) : Option (Nat × LResp × FrameRead.Bytes) :=
@@ -483,6 +531,22 @@ def step (_ : Unit) (ws : List String) : Unit × String :=
          let m := rowsModel api pat fv wire
          match rowsSpec api v r with
          | none => "not-wf-rows"
+         | some s => if s == m then m else "MODEL-SPEC-MISMATCH model=" ++ m ++ " spec=" ++ s
+     | _, _ => "bad-op")
+  | "skipx" :: fv :: rest =>
+    (match fv.toNat?, tSkip.run rest with
+     | some fv, some ((_, _, w1, _, _, w2), []) => skipModel fv w1 w2
+     | _, _ => "bad-op")
+  | "skip" :: fv :: rest =>
+    (match fv.toNat?, tSkip.run rest with
+     | some fv, some ((v1, r1, w1, v2, r2, w2), []) =>
+       if fv != v1 || fv != v2 then "bad-op"
+       else if !(wf v1 r1 && noCollClassResp r1 && wf v2 r2 && noCollClassResp r2) then "not-wf"
+       else if encodeFrame v1 r1 != w1 || encodeFrame v2 r2 != w2 then "spec-encoder-mismatch"
+       else
+         let m := skipModel fv w1 w2
+         match skipSpec r1 r2 with
+         | none => "not-wf-skip"
          | some s => if s == m then m else "MODEL-SPEC-MISMATCH model=" ++ m ++ " spec=" ++ s
      | _, _ => "bad-op")
   | _ => "bad-op")
